@@ -209,6 +209,31 @@ func factsC16() {
 	}
 	emitList("lazyLabelValuesReturns", "pkg/block/indexheader/lazy_binary_reader.go LabelValues: first result of every return", lvRet)
 	emitList("lazyDirectReturns", "pkg/block/indexheader/lazy_binary_reader.go: Reader methods that return the loaded header's result as it is", direct)
+	// load(), statement by statement, without logging, metrics, timing and the deferred re-lock
+	// (which lazyLoadSkeleton has)
+	var loadStmts []string
+	for _, st := range flatStmts(body(fn(f, "LazyBinaryReader", "load"))) {
+		if strings.HasPrefix(st, "level.") || strings.HasPrefix(st, "r.metrics.load") && !strings.Contains(st, "Failed") ||
+			strings.HasPrefix(st, "startTime") || strings.HasPrefix(st, "defer ") || strings.HasPrefix(st, "r.readerMx.") {
+			continue
+		}
+		loadStmts = append(loadStmts, st)
+	}
+	emitList("lazyLoadStmts", "pkg/block/indexheader/lazy_binary_reader.go load(): tests, assignments and returns, in source order", loadStmts)
+	emitList("lazyCloseStmts", "pkg/block/indexheader/lazy_binary_reader.go Close()", flatStmts(body(fn(f, "LazyBinaryReader", "Close"))))
+	// the pool's map of tracked readers: every statement that touches it
+	pf := parse("pkg/block/indexheader/reader_pool.go")
+	var track []string
+	for _, name := range []string{"NewBinaryReader", "closeIdleReaders", "getIdleReadersSince", "onLazyReaderClosed"} {
+		for _, st := range flatStmts(body(fn(pf, "ReaderPool", name))) {
+			if strings.Contains(st, "lazyReaders[") || strings.Contains(st, "p.lazyReaders)") || strings.Contains(st, "p.lazyReaders {") ||
+				strings.Contains(st, "lazyReaders, ") || strings.Contains(st, "unloadIfIdleSince") || strings.Contains(st, "isIdleSince") || strings.Contains(st, "getIdleReadersSince(") ||
+				strings.HasPrefix(st, "if:p.lazyReaderEnabled") {
+				track = append(track, name+": "+st)
+			}
+		}
+	}
+	emitList("poolTrackingStmts", "pkg/block/indexheader/reader_pool.go: the statements that read or change p.lazyReaders, and what the sweep does with a reader", track)
 }
 
 func factsC14() {
